@@ -17,11 +17,12 @@ from symnum.sym import Sym, SymError, symvars, new_context
 REPLAY_RTOL = 1e-6
 
 
-def run_shape(chk, ns, nq, np_, nv, n_sym_T):
-    tag = "nq%d-np%d-nv%d-nT%d" % (nq, np_, nv, n_sym_T + 1)
+def run_shape(chk, ns, nq, np_, nv, n_sym_T, tgrid="T0-first"):
+    tag = "nq%d-np%d-nv%d-nT%d%s" % (nq, np_, nv, n_sym_T + 1, "" if tgrid == "T0-first" else "-" + tgrid)
     ctx = new_context()
     H, K, consts = PC.declare_constants(ctx)
-    d = PC.make_duck(ctx, nq, np_, nv, n_sym_T=n_sym_T)
+    d = PC.make_duck(ctx, nq, np_, nv, n_sym_T=n_sym_T + (1 if tgrid == "no-T0" else 0), with_T0=(tgrid != "no-T0"),
+                     t0_last=(tgrid == "T0-last"))
     ei = symvars("ei", (nv,), positive=True, lo=0, hi=1)
     ej = symvars("ej", (nv,), positive=True, lo=0, hi=1)
 
@@ -116,12 +117,13 @@ def run_shape(chk, ns, nq, np_, nv, n_sym_T):
     # (c) sign on the diagonal: gap_ii < 0 unsatisfiable under C_V > 0, T > 0, V > 0, e > 0.
     # Asked of the code's own polynomial; falls back to the composed argument (identity (a) + square form)
     # only if nlsat does not finish, in which case it is recorded as such.
-    g = Sym.of(res["long_gap"][nt - 1, 0])
+    it_w = max(i for i in range(nt) if not Sym.of(d.t_array[i]).is_zero())
+    g = Sym.of(res["long_gap"][it_w, 0])
     t0 = time.time()
     v, env = Z.prove_rel(">=", g, name=tag + ":gap_ii>=0", timeout_ms=20000 if nq * np_ <= 12 else 3000)
     if v == "unknown":
         Xv = ctx.var("Xsq", kind="input")
-        form = d.t_array[nt - 1] * d.v_array[0] * Xv * Xv / (9 * ei[0] * ei[0] * d.heat_capacity[nt - 1, 0])
+        form = d.t_array[it_w] * d.v_array[0] * Xv * Xv / (9 * ei[0] * ei[0] * d.heat_capacity[it_w, 0])
         v2, _ = Z.prove_rel(">=", form, name=tag + ":gap_ii>=0:composed", timeout_ms=20000)
         chk.obligation(tag + ":gap_ii>=0[composed: identity (a) + T V X^2/(9 e^2 C_V) >= 0]", v2, kind="inequality",
                        seconds=round(time.time() - t0, 3))
@@ -132,10 +134,10 @@ def run_shape(chk, ns, nq, np_, nv, n_sym_T):
         if v == "sat":
             replay("%s:long_gap[sign]" % tag, env)
     # witness: assumptions satisfiable, gap can be strictly positive
-    w = Z.witness([(">", expected["long_gap"][nt - 1, 0])], name=tag + ":witness", timeout_ms=20000, rng=rng)
+    w = Z.witness([(">", expected["long_gap"][it_w, 0])], name=tag + ":witness", timeout_ms=20000, rng=rng)
     chk.witness(tag + ":gap-can-be-positive", w[0])
     chk.sample(dict(shape=tag, obligation="value_adiabatic - value_isothermal == T V (dP/dT)^2/(9 e_i e_j C_V)",
-                    code=Sym.of(res["off_gap"][nt - 1, 0]).short(2)))
+                    code=Sym.of(res["off_gap"][it_w, 0]).short(2)))
 
 
 def shear_part(chk, tier):
@@ -163,6 +165,8 @@ def main():
     shapes = [(2, 6, 2, 1), (3, 6, 2, 1)] if tier == "quick" else [(1, 6, 2, 1), (2, 3, 2, 1), (2, 6, 2, 1), (3, 6, 3, 2), (4, 12, 2, 1)]
     for nq, np_, nv, nT in shapes:
         run_shape(chk, ns, nq, np_, nv, nT)
+    run_shape(chk, ns, 2, 3, 2, 1, tgrid="no-T0")
+    run_shape(chk, ns, 2, 3, 2, 1, tgrid="T0-last")
     shear_part(chk, tier)
     # heat capacity forwarding (attribute wiring on a stub qha calculator)
     class _Q:
